@@ -88,6 +88,27 @@ def synthetic(ctx, lib, mols):
     return GroupLibrary(s2, contents={}, uq_contents={}), mode
 
 
+PROBES = [('Probe:aromatic-atom', 'fragment a{aromatic C labeled c1}'),
+          ('Probe:nonaromatic-ring-atom', 'fragment a{nonaromatic C labeled c1 {in ring of size >2}}'),
+          ('Probe:aromatic-bond', 'fragment a{C labeled c1 C labeled c2 aromatic bond to c1}'),
+          ('Probe:ring-double-bond', 'fragment a{ringatom C labeled c1 ringatom C labeled c2 double bond to c1}'),
+          ('Probe:zero-order-bond', 'fragment a{$ labeled c1 $ labeled c2 partial bond to c1}')]
+
+
+def probe_scheme(lib):
+    """the shipped scheme plus correction descriptors that *observe* what the shipped patterns never read — the aromatic flag
+    of an atom, the kind of every ring bond, weak bonds — so that a change to the perception or normalisation that no shipped
+    pattern notices still changes a descriptor count (read through the Scheme module's own `Read`, hence recorded)"""
+    import pgradd.GroupAdd.Scheme as M
+    from pgradd.GroupAdd.Library import GroupLibrary
+    sch = lib.scheme
+    extra = [{'name': n, 'connectivity': M.Read(t)} for n, t in PROBES]
+    s2 = M.GroupAdditivityScheme(patterns=list(sch.patterns), pretreatment_rules=[], remaps=dict(sch.remaps),
+                                 other_descriptors=list(sch.other_descriptors) + extra, smiles_based_descriptors=[],
+                                 smarts_based_descriptors=[], include=[])
+    return GroupLibrary(s2, contents={}, uq_contents={})
+
+
 def to_frac(d):
     return {k: Fraction(v).limit_denominator(10 ** 9) if isinstance(v, float) else Fraction(v) for k, v in d.items()}
 
@@ -187,6 +208,10 @@ def run(ctx):
             lib2, mode = synthetic(ctx, lib, sample)
             for smi in sample:
                 check_one(ctx, '%s~%s' % (name, mode), lib2, smi, batch, full)
+        # the shipped scheme with probe descriptors, on the molecules that have rings or weak bonds
+        libp = probe_scheme(lib)
+        for smi in [m for m in mols if any(ch in m for ch in '12~')][:ctx.n(60, 400)]:
+            check_one(ctx, '%s~probe' % name, libp, smi, batch, full)
         if len(batch) > 4000:
             compare_batch(ctx, batch, None)
             batch = []
@@ -204,7 +229,8 @@ def replay(ctx, rec):
     libs_ = dict(S.load_schemes())
     name = inp['scheme'].split('~')[0]
     batch = []
-    check_one(ctx, name, libs_[name], inp['smiles'], batch)
+    lib = probe_scheme(libs_[name]) if inp['scheme'].endswith('~probe') else libs_[name]
+    check_one(ctx, inp['scheme'], lib, inp['smiles'], batch)
     if 'other_smiles' in inp:
         a = S.impl_descriptors(libs_[name], inp['smiles'])
         b = S.impl_descriptors(libs_[name], inp['other_smiles'])
